@@ -27,7 +27,8 @@ PROPS = {
         ],
         "bounds": [
             "int / and %: the full quotient/remainder equation is discharged only for |a|,|b| <= 4096 plus MIN/-1 "
-            "(bounded stand-in: CBMC's divider encoding makes the full-domain uniqueness proof intractable); "
+            "(bounded stand-in: CBMC's divider encoding makes the full-domain uniqueness proof intractable; the thorough tier adds "
+            "all a with |b| <= 16, and |a|,|b| <= 65536); "
             "sign rules, |r| < |b| and the zero-divisor rule are full-domain proofs",
         ],
         "trusted_base": [],
